@@ -9,3 +9,4 @@ import Zeno.Props.C09
 import Zeno.Props.C15
 import Zeno.Props.C04
 import Zeno.Props.C05
+import Zeno.Props.C06
